@@ -303,7 +303,11 @@ def _compute_integral_ir(
             _blockmap.append(dofmap)
         blockmap = tuple(_blockmap)
 
-        if TensorPart.from_str(p["part"]) == TensorPart.diagonal and blockmap[0] != blockmap[1]:
+        if (
+            TensorPart.from_str(p["part"]) == TensorPart.diagonal
+            and len(blockmap) == 2
+            and blockmap[0] != blockmap[1]
+        ):
             # Off-diagonal block (the two arguments live on different
             # sub-elements/components or on different sides of an interior
             # facet): it has no entries on the diagonal
